@@ -209,12 +209,15 @@ CONFIGS = {
     'GaussNoise': [{}, {'var_limit': 20.0, 'mean': 3}, {'var_limit': (5.0, 30.0), 'per_channel': False}],
     'Posterize': [{'num_bits': 4}, {'num_bits': (2, 6)}, {'num_bits': 1}],
     'Blur': [{}, {'blur_limit': (3, 5), 'by_slice': True}, {'mode': 'reflect'}, {'mode': 'nearest', 'cval': 3}, {'mode': 'wrap'},
-             {'blur_limit': (4, 4)}, {'blur_limit': (2, 6), 'by_slice': True}, {'blur_limit': (6, 6), 'mode': 'reflect'}],
-    'MedianBlur': [{}, {'blur_limit': 3, 'by_slice': True}, {'mode': 'mirror'}],
-    'GaussianBlur': [{}, {'sigma_limit': (0.5, 2)}, {'blur_limit': (3, 5), 'mode': 'reflect'}],
-    'Sharpen': [{}, {'alpha': (0.1, 0.9), 'lightness': (0.2, 1.5)}, {'mode': 'reflect'}],
+             {'blur_limit': (4, 4)}, {'blur_limit': (2, 6), 'by_slice': True}, {'blur_limit': (6, 6), 'mode': 'reflect'},
+             {'mode': 'constant', 'cval': 7}],
+    'MedianBlur': [{}, {'blur_limit': 3, 'by_slice': True}, {'mode': 'mirror'}, {'mode': 'constant', 'cval': 7},
+                   {'mode': 'constant', 'cval': 7, 'by_slice': True, 'blur_limit': (3, 5)}],
+    'GaussianBlur': [{}, {'sigma_limit': (0.5, 2)}, {'blur_limit': (3, 5), 'mode': 'reflect'}, {'mode': 'constant', 'cval': 7},
+                     {'by_slice': True, 'mode': 'nearest'}],
+    'Sharpen': [{}, {'alpha': (0.1, 0.9), 'lightness': (0.2, 1.5)}, {'mode': 'reflect'}, {'mode': 'constant', 'cval': 7}],
     'UnsharpMask': [{}, {'alpha': 0.7, 'threshold': 0.2}, {'mode': 'mirror'}, {'threshold': 0.0, 'alpha': 0.5},
-                    {'threshold': 0.0, 'blur_limit': (3, 5), 'alpha': (0.3, 0.9)}],
+                    {'threshold': 0.0, 'blur_limit': (3, 5), 'alpha': (0.3, 0.9)}, {'mode': 'constant', 'cval': 0.5}],
     'Downscale': [{}, {'scale_min': 0.3, 'scale_max': 0.6}, {'interpolation': 0}, {'interpolation': {'downscale': 0, 'upscale': 1}},
                   {'interpolation': {'downscale': 1, 'upscale': 0}}, {'interpolation': {'downscale': 3, 'upscale': 1}}],
 }
@@ -230,9 +233,11 @@ def check(case):
         kw['max_brightness'] = 200
     if name == 'RandomBrightnessContrast' and kw.get('max_brightness') == 200 and dt.startswith('float'):
         kw['max_brightness'] = 1.0
-    pipe = A.ReplayCompose([getattr(A, name)(p=1.0, **kw)])
+    if dt.startswith('float') and isinstance(kw.get('cval'), (int, float)) and kw['cval'] > 1:
+        kw['cval'] = 0.5          # a border value inside the nominal range of the float image
     random.seed(case['seed'])
     try:
+        pipe = A.ReplayCompose([getattr(A, name)(p=1.0, **kw)])
         res = pipe(image=img.copy())
     except Exception as e:  # noqa -- whether a documented configuration runs is C08's question
         return None
